@@ -100,7 +100,21 @@ def err_payloads(W, T, t, depth=0):
         if n == "from_residual" and t[2]:
             return err_payloads(W, T, t[2][0], depth + 1)
         if n in ("map_err", "or_else") and t[2]:
-            return err_payloads(W, T, t[2][0], depth + 1) + [x for x in t[2][1:]]
+            inner = err_payloads(W, T, t[2][0], depth + 1)
+            if len(t) > 3 and t[3] and t[3][0] in P.fns:
+                tys0 = P.fns[t[3][0]].blocks[t[3][1]].term.get("arg_tys") or [""]
+                if any(d in tys0[0] for d in DATA_FREE_ERR):
+                    inner = [("int", 0)]      # the error being mapped is of a type that carries no data (same table as for unwrap sites)
+            out = []
+            for x in t[2][1:]:
+                if isinstance(x, tuple) and x and x[0] == "closure" and x[1] in P.fns and n == "map_err":
+                    # the new error is what the closure returns, given the old error: not everything the closure captured
+                    r = W.ev(x[1]).ret()
+                    if r != ("never",):
+                        out += [W.bind_params(r, x[1], [x, e]) for e in (inner or [("unknown-error",)])]
+                        continue
+                out.append(x)
+            return (inner if n == "or_else" else []) + out
         if t[1] in P.fns:
             ev = W.ev(t[1])
             r = W.bind_params(ev.ret(), t[1], list(t[2]))
